@@ -166,6 +166,8 @@ def matchLine (mode : Option IoMode) (l : Line) : Option (String × List Arg) :=
   | "dec", [.reg k] => some ("dec", [.reg k])
   | "clr", [.reg k] => some ("clr", [.reg k])
   | "add", [.reg d, .reg s] => some ("add", [.reg d, .reg s])
+  | "mult", [.reg d, .reg s] => some ("mult", [.reg d, .reg s])
+  | "div", [.reg d, .reg s] => some ("div", [.reg d, .reg s])
   | "j", [.num n] => some ("j", [.num n])
   | "j", [.sym s] => some ("j", [.sym s])
   | "jmp", [.num n] => some ("j", [.num n])
@@ -249,7 +251,7 @@ def portCount (l : List Nat) : Nat := if l.isEmpty then 0 else maxOf l + 1
 
 /-- the real opcodes of the subset, in name order (`sort.Sort(procbuilder.ByName(…))`) -/
 def allOps : List String :=
-  ["add", "clr", "cpy", "dec", "i2r", "i2rw", "inc", "j", "jz", "nop", "r2o", "r2owa", "rset"]
+  ["add", "clr", "cpy", "dec", "div", "i2r", "i2rw", "inc", "j", "jz", "mult", "nop", "r2o", "r2owa", "rset"]
 
 /-- the processor's opcode list: the sorted *set* of opcodes the whole section uses -/
 def opsOf (rs : List RLine) : List String := allOps.filter fun o => rs.any (·.op == o)
